@@ -101,9 +101,11 @@ func (P *Prog) lemmaObls(lm *Lemma) (obls []*Obligation) {
 	for _, rq := range lm.Requires {
 		st.assume(x.evalSpec(rq.E, env).T)
 	}
+	x.curLemma, x.curLemmaEnv = lm, env
 	for _, u := range lm.Uses {
 		x.useLemma(st, env, u, lm.Props)
 	}
+	x.curLemma = nil
 	for i, en := range lm.Ensures {
 		g := x.evalSpec(en.E, env)
 		lbl := en.Label
@@ -141,6 +143,15 @@ func (x *Exec) useLemma(st *State, env *Env, u *Expr, props []string) {
 	for i, p := range lm.Params {
 		le.vars[p.Name] = x.evalSpec(u.Args[i], env)
 	}
+	if x.curLemma == lm {
+		// inductive self-use: the measure must decrease and stay non-negative
+		if lm.Decreases == nil {
+			bail("lemma %s uses itself without a decreases clause", lm.Name)
+		}
+		m0 := x.evalSpec(lm.Decreases, x.curLemmaEnv).T
+		m1 := x.evalSpec(lm.Decreases, le).T
+		x.emit(st, "lemma-pre", u.Name+".decreases", "measure of inductive use decreases", implies(guard, and(sx("<=", "0", m1), sx("<", m1, m0))), props, 0, nil)
+	}
 	for _, rq := range lm.Requires {
 		g := x.evalSpec(rq.E, le)
 		x.emit(st, "lemma-pre", u.Name+"."+shortText(rq.Text), "precondition of lemma "+u.Name+": "+rq.Text, implies(guard, g.T), props, 0, nil)
@@ -150,4 +161,42 @@ func (x *Exec) useLemma(st *State, env *Env, u *Expr, props []string) {
 		st.assume(implies(guard, x.evalSpec(en.E, le).T))
 	}
 	x.usedLemmas = append(x.usedLemmas, u.Name)
+}
+
+// lemmaCycle reports a cycle in the lemma use graph other than a direct self-use (which needs decreases).
+func (sp *Specs) lemmaCycle() string {
+	state := map[string]int{}
+	var visit func(n string, path []string) string
+	visit = func(n string, path []string) string {
+		if state[n] == 2 {
+			return ""
+		}
+		if state[n] == 1 {
+			return fmt.Sprint(append(path, n))
+		}
+		state[n] = 1
+		lm := sp.Lemmas[n]
+		if lm != nil {
+			for _, u := range lm.Uses {
+				e := u
+				if e.Op == "guarded" {
+					e = e.Args[1]
+				}
+				if e.Op != "call" || e.Name == n {
+					continue
+				}
+				if c := visit(e.Name, append(path, n)); c != "" {
+					return c
+				}
+			}
+		}
+		state[n] = 2
+		return ""
+	}
+	for _, n := range sortedLemmaNames(sp.Lemmas) {
+		if c := visit(n, nil); c != "" {
+			return c
+		}
+	}
+	return ""
 }
